@@ -86,7 +86,13 @@ func checkDelivery(k *Kernel, cov *Coverage, prop string) *Violation {
 		shape := rpcShape(rpc)
 		pair := c.Op.Client + ">" + c.Op.Server
 		sig := func(class, extra string) string {
-			s := prop + "|" + class + "|" + pair + "|ct=" + ct + "|" + shape
+			s := prop + "|" + class + "|" + pair + "|ct=" + ct
+			switch class {
+			case "request-mismatch", "response-mismatch":
+				// the field shape in extra names the cause; the route shape does not matter
+			default:
+				s += "|" + shape
+			}
 			if extra != "" {
 				s += "|" + extra
 			}
@@ -138,12 +144,12 @@ func checkDelivery(k *Kernel, cov *Coverage, prop string) *Violation {
 		}
 		if !proto.Equal(mine[0].Req, c.Req) {
 			f := firstDiff(c.Req, mine[0].Req)
-			return &Violation{Class: "request-mismatch", Signature: sig("request-mismatch", fieldShape(k.W, rpc, rpc.In, f)),
+			return &Violation{Class: "request-mismatch", Signature: sig("request-mismatch", "in="+annType(rpc.In)+"|"+fieldShape(k.W, rpc, rpc.In, f)),
 				Detail: fmt.Sprintf("op %d %s field %q: caller passed %s, handler saw %s", c.Op.ID, c.Op.RPC, f, jsonOf(c.Req), jsonOf(mine[0].Req))}
 		}
 		if c.Resp == nil || !proto.Equal(c.Resp, c.HandlerResp) {
 			f := firstDiff(c.HandlerResp, c.Resp)
-			return &Violation{Class: "response-mismatch", Signature: sig("response-mismatch", fieldShape(k.W, nil, rpc.Out, f)),
+			return &Violation{Class: "response-mismatch", Signature: sig("response-mismatch", "out="+annType(rpc.Out)+"|"+fieldShape(k.W, nil, rpc.Out, f)),
 				Detail: fmt.Sprintf("op %d %s field %q: handler returned %s, caller got %s", c.Op.ID, c.Op.RPC, f, jsonOf(c.HandlerResp), jsonOf(c.Resp))}
 		}
 		cov.Tuple(k.W.Name, c.Op.RPC, pair, "ct="+ct, "ok")
@@ -192,7 +198,11 @@ func failureKind(k *Kernel, c *CallState, rpc *spec.RPC, status int, ct string) 
 	case status == 404 || status == 405 || status == 301 || status == 307:
 		return fmt.Sprintf("route-%d|pathcfg=%s|base=%s", status, pathcfg, baseKind(k.W, rpc))
 	case status == 400 && strings.Contains(body, "failed to parse request body"):
-		return "body-parse|ct=" + ct + "|" + hasBody
+		in := "plain"
+		if rpc != nil {
+			in = annType(rpc.In)
+		}
+		return "body-parse|ct=" + ct + "|" + hasBody + "|in=" + in
 	case status == 400 && strings.Contains(body, "header"):
 		return "header-rejected|ct=" + ct
 	case status == 400:
@@ -202,6 +212,8 @@ func failureKind(k *Kernel, c *CallState, rpc *spec.RPC, status int, ct string) 
 			f = fieldShape(k.W, rpc, rpc.In, ve.Violations[0].Field)
 		}
 		return "rejected-400|ct=" + ct + "|" + f
+	case status == 200 && rpc != nil:
+		return "response-decode|ct=" + ct + "|out=" + annType(rpc.Out)
 	case status == 0:
 		return "no-response|ct=" + ct + "|" + hasBody
 	}
